@@ -111,7 +111,7 @@ def stoGSLines (L : StoLayout) (m : Msa) : List Bytes :=
         let t := m.gs.getD i ([], [])
         idx.flatMap (fun j => match t.2.getD j none with
           | some v => (strtokLF v []).map fun tok =>
-              sGS ++ stoName L m i j L.maxname ++ [32] ++ padRight t.1.length t.1 ++ [32] ++ tok
+              sGS ++ stoName L m j j L.maxname ++ [32] ++ padRight t.1.length t.1 ++ [32] ++ tok
           | none => [])
         ++ [[]])
 
